@@ -71,6 +71,35 @@ def witness_search(tier, seed):
                     return dict(input=dict(text=text, encoding=enc, try_encodings=encs, out=out, backup=bak), detail="input modified although an output name was given")
                 if open(other, "rb").read() != b"keep" or set(os.listdir(d)) != {"in" + ext, "other.txt"} | ({out} if out else set()) | ({bak} if bak else set()):
                     return dict(input=dict(text=text, encoding=enc, try_encodings=encs, out=out, backup=bak), detail="another file was created or changed")
+        # the same on an in-memory PyFilesystem: everything happens inside the filesystem that was passed, nothing on disk
+        from fs.memoryfs import MemoryFS
+        for out, bak in ((None, None), ("out.sm", None), (None, "bak.sm"), ("out.sm", "bak.sm")):
+            mem = MemoryFS()
+            mem.writebytes("in.sm", "#TITLE:caf\xe9;#ARTIST:x;".encode("cp1252"))
+            mem.writebytes("other.txt", b"keep")
+            cwd_before = set(os.listdir("."))
+            kw = {"filesystem": mem}
+            if out:
+                kw["output_filename"] = out
+            if bak:
+                kw["backup_filename"] = bak
+            try:
+                with simfile.mutate("in.sm", **kw) as sf:
+                    before = str(sf)
+                    sf.title = "edited"
+                    edited = str(sf)
+            except Exception as e:
+                return dict(input=dict(filesystem="MemoryFS", out=out, backup=bak), detail=f"mutate raised {type(e).__name__}: {e}")
+            names = set(mem.listdir("/"))
+            want = {"in.sm", "other.txt"} | ({out} if out else set()) | ({bak} if bak else set())
+            stray = set(os.listdir(".")) - cwd_before
+            for nm in stray:
+                os.remove(nm)
+            if names != want or stray:
+                return dict(input=dict(filesystem="MemoryFS", out=out, backup=bak),
+                            detail=f"files in the filesystem passed: {sorted(names)}, expected {sorted(want)}; new files on disk: {sorted(stray)}")
+            if mem.readbytes(out or "in.sm").decode("cp1252").replace("\r\n", "\n") != edited or (bak and mem.readbytes(bak).decode("cp1252").replace("\r\n", "\n") != before):
+                return dict(input=dict(filesystem="MemoryFS", out=out, backup=bak), detail="output / backup inside the filesystem passed do not hold the edited / original simfile")
         # a backup name equal to the input or output name is refused before anything is written
         for out, bak in ((None, "in.sm"), ("out.sm", "out.sm"), ("out.sm", "in.sm")):
             for f in os.listdir(d):
